@@ -492,11 +492,44 @@ var junkLines = []string{
 	"---", "---\n// a: b", "---\n// - x\n// - : y", "\t\t", "//", "/*", "*/", "`", "\"", "\\", "\x00", "\u00a0\u2003", "\u202e", "é世\U0001F600", strings.Repeat("a", 5000), strings.Repeat("x: ", 300),
 }
 
+// sectionJunk: a section header of the annotation vocabulary followed by lines assembled from its own tokens in no
+// particular order (a forgotten "+", a key before any item, a value where a key is expected, odd indentation)
+var sectionHeads = []string{"Parameters:", "Responses:", "Security:", "Extensions:", "Consumes:", "Produces:", "Schemes:", "SecurityDefinitions:", "Tags:", "parameters:", "responses:", "InfoExtensions:", "Deprecated:", "ExternalDocs:"}
+var sectionKeys = []string{"name", "in", "type", "required", "description", "format", "default", "enum", "min", "max", "maximum", "minimum", "allowempty", "schema", "items", "200", "default", "x-a", "url", "body", "", "unique", "collectionFormat"}
+var sectionVals = []string{"x", "query", "body", "path", "string", "integer", "true", "false", "maybe", "[", "{", "1", "-1", "1e9", "a,b", "[1,2", "", " ", "array", "Pet", "[]Pet", "response:x", "body:Pet", "description: d"}
+
+func sectionJunk(r *rng.R) string {
+	var b strings.Builder
+	b.WriteString(r.Pick(sectionHeads))
+	for i, n := 0, r.Intn(5); i < n; i++ {
+		b.WriteString("\n")
+		b.WriteString(strings.Repeat(" ", r.Intn(5)))
+		switch r.Intn(6) {
+		case 0:
+			b.WriteString("+ ")
+		case 1:
+			b.WriteString("- ")
+		case 2:
+			b.WriteString("+")
+		}
+		switch r.Intn(5) {
+		case 0:
+			b.WriteString(r.Pick(sectionVals))
+		default:
+			b.WriteString(r.Pick(sectionKeys) + ":" + strings.Repeat(" ", r.Intn(3)) + r.Pick(sectionVals))
+		}
+	}
+	return b.String()
+}
+
 func junkBlock(r *rng.R) string {
 	n := 1 + r.Intn(4)
 	var b strings.Builder
 	for i := 0; i < n; i++ {
 		ln := r.Pick(junkLines)
+		if r.Chance(1, 3) {
+			ln = sectionJunk(r)
+		}
 		if r.Chance(1, 5) {
 			// random unicode line
 			var rs []rune
